@@ -91,12 +91,6 @@ def parseMode : String → Option (Option GenMode)
   | "half" => some none
   | _ => none
 
-def runGen (m : Option GenMode) (ps : Pset) (mn mx τ : Nat) (tp : Tape) : R (List Prim × Tape) :=
-  match m with
-  | some .full => genFull ps mn mx τ tp
-  | some .grow => genGrow ps mn mx τ tp
-  | none => genHalfAndHalf ps mn mx τ tp
-
 /-- every fault (exception of the code, exhausted / ill-typed tape) answers `none` -/
 def show1 : R (List Prim × Tape) → String
   | .ok (l, tp) => showNodes l ++ " " ++ toString tp.length
@@ -110,12 +104,8 @@ def showMany : R (List (List Prim) × Tape) → String
   | .ok (ls, tp) => " ".intercalate (ls.map showNodes) ++ " " ++ toString tp.length
   | .error _ => "none"
 
-def lift1 : R (List Prim × Tape) → R (List (List Prim) × Tape)
-  | .ok (l, tp) => .ok ([l], tp)
-  | .error e => .error e
-def lift2 : R (List Prim × List Prim × Tape) → R (List (List Prim) × Tape)
-  | .ok (a, b, tp) => .ok ([a, b], tp)
-  | .error e => .error e
+def parseOne (s : String) : Option Bool :=
+  if s = "one" then some true else if s = "all" then some false else none
 
 /-- an operator line (without the tape), as a function of the argument trees and the tape -/
 def parseOp : List String → Option (List (List Prim) × (List (List Prim) → Tape → R (List (List Prim) × Tape)))
@@ -136,7 +126,7 @@ def parseOp : List String → Option (List (List Prim) × (List (List Prim) → 
     some ([ind], fun args tp => match args with | [x] => lift1 (mutNodeReplacement x ps tp) | _ => .error .raised)
   | ["mute", ind, mode] => do
     let ind ← parseNodes ind
-    let one ← if mode = "one" then some true else if mode = "all" then some false else none
+    let one ← parseOne mode
     some ([ind], fun args tp => match args with | [x] => lift1 (mutEphemeral x one tp) | _ => .error .raised)
   | ["muti", s, p, t, r, tc, pc, ind] => do
     let ps ← parsePset s p t r tc pc
@@ -152,6 +142,39 @@ def parseKey : String → Option (List Prim → Option Nat)
   | "height" => some heightL
   | _ => none
 
+def showSpan : Option (Int × Int) → String
+  | some (b, e) => toString b ++ " " ++ toString e
+  | none => "none"
+
+def showSpanC : Option (Int × Int) → String
+  | some (b, e) => toString b ++ ":" ++ toString e
+  | none => "none"
+
+/-- operator part of a history step: `cx|i|j`, `cxlb|i|j|<float>`, `mutu|i|<mode>|<min>|<max>`, `mutn|i`,
+`mute|i|one` / `all`, `muti|i`, `muts|i` -/
+def parseStepOp : List String → Option Op
+  | ["cx", i, j] => do let i ← parseNat i; let j ← parseNat j; some (.cx i j)
+  | ["cxlb", i, j, pb] => do let i ← parseNat i; let j ← parseNat j; let pb ← parseFloat pb; some (.cxlb i j pb)
+  | ["mutu", i, m, mn, mx] => do
+    let i ← parseNat i; let m ← parseMode m; let mn ← parseNat mn; let mx ← parseNat mx; some (.mutu i m mn mx)
+  | ["mutn", i] => do let i ← parseNat i; some (.mutn i)
+  | ["mute", i, mode] => do let i ← parseNat i; let one ← parseOne mode; some (.mute i one)
+  | ["muti", i] => do let i ← parseNat i; some (.muti i)
+  | ["muts", i] => do let i ← parseNat i; some (.muts i)
+  | _ => none
+
+/-- a history step, fields separated by `|`; an optional prefix `slim|<key>|<max>|<npos>|` wraps the operator by
+`staticLimit`.  A crossover of a position with itself is malformed. -/
+def parseStep (s : String) : Option Step :=
+  match s.splitOn "|" with
+  | "slim" :: key :: maxv :: npos :: rest => do
+    let k ← parseKey key; let m ← parseNat maxv; let np ← parseNat npos
+    let op ← parseStepOp rest
+    if op.distinct then some ⟨op, some ⟨k, m, np⟩⟩ else none
+  | toks => do
+    let op ← parseStepOp toks
+    if op.distinct then some ⟨op, none⟩ else none
+
 def dropLast (l : List String) : Option (List String × String) :=
   match l.reverse with
   | [] => none
@@ -162,12 +185,41 @@ def handle : List String → String
     match (do let ps ← parsePset s p t r tc pc; let m ← parseMode mode; let mn ← parseNat mn
               let mx ← parseNat mx; let τ ← parseNat ty; let tp ← parseTape tape; pure (ps, m, mn, mx, τ, tp)) with
     | some (ps, m, mn, mx, τ, tp) => show1 (runGen m ps mn mx τ tp)
-    | none => "bad-op"
+    | none =>
+      if mode = "ramped" then
+        match (do let ps ← parsePset s p t r tc pc; let mn ← parseNat mn
+                  let mx ← parseNat mx; let τ ← parseNat ty; let tp ← parseTape tape; pure (ps, mn, mx, τ, tp)) with
+        | some (ps, mn, mx, τ, tp) => show1 (genRamped ps mn mx τ tp)
+        | none => "bad-op"
+      else "bad-op"
   | ["search", ind, i] =>
-    match (do let l ← parseNodes ind; let i ← parseNat i; pure (l, i)) with
-    | some (l, i) => match searchSubtree l i with
-      | some (b, e) => toString b ++ " " ++ toString e
-      | none => "none"
+    -- any Python int index (negative ones as a list is indexed)
+    match (do let l ← parseNodes ind; let i ← parseInt i; pure (l, i)) with
+    | some (l, i) => showSpan (searchSubtreePy l i)
+    | none => "bad-op"
+  | ["spans", ind] =>
+    -- searchSubtree(i) for every i in range(-len, len), then the height
+    match parseNodes ind with
+    | some l =>
+      let n : Int := (l.length : Int)
+      let idx := (List.range (2 * l.length)).map (fun (k : Nat) => (k : Int) - n)
+      ",".intercalate (idx.map (fun i => showSpanC (searchSubtreePy l i))) ++ " " ++ showOpt toString (heightL l)
+    | none => "bad-op"
+  | "hist" :: s :: p :: t :: r :: tc :: pc :: npop :: rest =>
+    -- a whole history on one population: `<npop> <tree>… <nsteps> <step>… <tape>`
+    match (do
+      let ps ← parsePset s p t r tc pc
+      let n ← parseNat npop
+      if rest.length < n + 2 then none
+      let pop ← (rest.take n).mapM parseNodes
+      let rest := rest.drop n
+      let k ← parseNat (rest.headD "")
+      let rest := rest.drop 1
+      if rest.length ≠ k + 1 then none
+      let steps ← (rest.take k).mapM parseStep
+      let tp ← parseTape ((rest.drop k).headD "")
+      pure (ps, pop, steps, tp)) with
+    | some (ps, pop, steps, tp) => showMany (runHistory ps steps pop tp)
     | none => "bad-op"
   | ["height", ind] =>
     match parseNodes ind with
